@@ -219,7 +219,7 @@ _workers = {}
 def get_worker(ctx):
     w = _workers.get(ctx.rundir)
     if w is None:
-        w = Worker(ctx.scratch("w"), mudlib_files={"t/dummy.c": genlpc.DUMMY}, timeout=6)
+        w = Worker(ctx.scratch("w"), mudlib_files={"t/dummy.c": genlpc.DUMMY}, timeout=6, conf={"MaxLocalVariables": "120"})
         os.makedirs(os.path.join(w.mudlib, "scratch"), exist_ok=True)
         _workers[ctx.rundir] = w
     return w
@@ -307,6 +307,33 @@ def check(ctx, w, case):
         ctx.case_done(runner.khash(key) if reached else None, cl, sample=dict(test=key[:3], types=key[3], values=key[4], frame=key[5], outcome=st_))
 
 
+def check_program(ctx, w, p):
+    """layer 4: whole programs from C03's typed statement grammar (loops, switches, compound assignments on every
+    target kind, mapping growth, helper calls) under the crash oracle only"""
+    from . import c03
+    files, names = c03.render_program(p)
+    w.write("t/c01prog.c", files["r"])
+    w.write("t/c01progl.c", files["l"])
+    res = w.run([["load", "t/c01prog.c"], ["call", "t/c01prog", "run_args", arg("v_base")], ["call", "t/c01prog", "run_args", arg("v_mixed")],
+                 ["load", "t/c01progl.c"], ["call", "t/c01progl", "v_literals"]])
+    ctx.evaluations += 1
+    if res.timed_out:
+        ctx.inconclusive["timeout"] += 1
+        return
+    cr = res.crash()
+    if cr:
+        sig = "%s:%s" % (cr[0], cr[1])
+        if "@?" in sig or cr[0] in ("signal", "exit", "vanished", "terminated"):
+            sig += "|program"
+        ctx.fail(sig, dict(program=p), "source:\n" + files["r"][:6000] + "\n--- stderr:\n" + cr[2])
+        return
+    r = res.step(1) or {}
+    ctx.classes["kind:program"] += 1
+    ctx.classes["outcome:" + str(r.get("st"))] += 1
+    if r.get("st") in ("val", "err"):
+        ctx.nontrivial.add(runner.khash(["program", p["body"], p["ret"]]))
+
+
 def shard_main(ctx):
     from hypothesis import given
     n = {"quick": 900, "thorough": 60000}[ctx.tier]
@@ -318,8 +345,16 @@ def shard_main(ctx):
     def test(case):
         check(ctx, get_worker(ctx), case)
 
+    from . import c03
+
+    @given(c03.programs())
+    def test_programs(p):
+        check_program(ctx, get_worker(ctx), p)
+
     try:
         runner.run_hypothesis(ctx, test, n)
+        if not ctx.failures:
+            runner.run_hypothesis(ctx, test_programs, {"quick": 220, "thorough": 20000}[ctx.tier])
     finally:
         close_workers(ctx)
 
@@ -327,6 +362,13 @@ def shard_main(ctx):
 def replay(ctx, case):
     w = get_worker(ctx)
     try:
+        if "program" in case:
+            before = len(ctx.failures)
+            try:
+                check_program(ctx, w, case["program"])
+            except runner.Failure as f:
+                return (f.sig, f.detail)
+            return None
         f, _ = evaluate_case(ctx, w, case)
         return f
     finally:
